@@ -5,6 +5,10 @@
 //!  * `NodeService::on_stop` clears the pid and sets Stopped; `on_remove` sets Removed;
 //!  * `NodeService::on_start` writes pid/status only after the RPC block;
 //!  * `ServiceManager::stop`: whether a failed `service_control.stop` is followed by a process lookup + `on_stop`;
+//!  * `add_node`: whether the requested node / metrics / RPC ranges are checked against each other
+//!    (`check_port_ranges_disjoint`) between the per-range checks against the registry and the install loop;
+//!  * the command layer (`cmd/node.rs`, `bin/daemon/main.rs::restart_handler`): save and refresh sites, see
+//!    `lifecycle_cmd.rs`;
 //!  * `rpc::restart_node_service` (the daemon's restart): how the replacement service of `retain_peer_id = false` is
 //!    numbered, and whether it is pushed to the registry before the `?` on the result of its first start.
 use crate::util::*;
